@@ -144,6 +144,8 @@ def run_check(modname: str, tier: str, seed: int, replay_path: str | None = None
             if batch:
                 pending.append(pool.apply_async(_work, (batch,)))
             run.require_ok()
+            if run.cut and run.distinct == 0:      # a simulation that was cut after max_cases prints no totals: every emitted scenario is a state TLC checked
+                run.states = run.distinct = run.emitted
             states += run.states
             distinct += run.distinct
             tlc_runs.append({'module': spec['module'], 'cfg': spec['cfg'], 'simulate': spec.get('simulate'), 'states_generated': run.states,
